@@ -519,7 +519,7 @@ func jnRandomScenario(seed int64, id int, thorough bool) jnScenario {
 		sc.C2S = append(sc.C2S, jnPk{ID: 1 + rng.Intn(50), N: size()})
 	}
 	// handler set: random priorities (with ties), random kinds, random registration order
-	ids := []int{1, 2, 3, 4, 30, int(packetid.ClientboundPacketIDGuard) - 1} // the whole clientbound id table; ids beyond it are not generated
+	ids := []int{1, 2, 3, 4, 30, int(packetid.ClientboundPacketIDGuard) - 1} // listeners: ids of the clientbound id table (packets also carry ids beyond it, see below)
 	nh := 1 + rng.Intn(8)
 	if thorough {
 		nh = 1 + rng.Intn(14)
@@ -574,7 +574,14 @@ func jnRandomScenario(seed int64, id int, thorough bool) jnScenario {
 		if !dispatchy && rng.Intn(8) == 0 {
 			n = 0 // a packet that is only its id (the recorder counts invocations, it needs no index in the payload)
 		}
-		sc.S2C = append(sc.S2C, jnPk{ID: ids[rng.Intn(len(ids))], N: n})
+		id := ids[rng.Intn(len(ids))]
+		if rng.Intn(6) == 0 {
+			// ids at and beyond the end of the clientbound id table: no listener can exist for them, the generic
+			// handlers still see them, and the packets behind them are dispatched as usual
+			g := int(packetid.ClientboundPacketIDGuard)
+			id = []int{g, g, g + 1, g + 2, 5000, 1 << 20}[rng.Intn(6)]
+		}
+		sc.S2C = append(sc.S2C, jnPk{ID: id, N: n})
 	}
 	return sc
 }
@@ -600,6 +607,7 @@ func jnLegS(env *vk.Env) bool {
 	wg.Add(2)
 	go func() {
 		defer wg.Done()
+		defer guard("c19b")
 		cfg := "Join_MC.cfg"
 		files := map[string][]byte{}
 		if !env.Quick() {
@@ -617,6 +625,7 @@ func jnLegS(env *vk.Env) bool {
 	}()
 	go func() {
 		defer wg.Done()
+		defer guard("c19b")
 		cfg := "Dispatch_MC.cfg"
 		files := map[string][]byte{}
 		if !env.Quick() {
@@ -659,6 +668,7 @@ func jnLegS(env *vk.Env) bool {
 		sem <- struct{}{}
 		go func() {
 			defer wg.Done()
+			defer guard("c19b")
 			defer func() { <-sem }()
 			b, err := jnVariantCfg(v.base, v.from, v.to)
 			if err != nil {
@@ -723,7 +733,7 @@ func runC19(env *vk.Env) {
 		"a hang counts only if the scenario hangs on two further fresh runs; otherwise it is an infrastructure result",
 		"OfflineUUID(name) of the specification is concretised by the harness's own MD5 version-3 computation (not by go-mc/offline)",
 		"the configuration phase is the finish-only gate of the property; online-mode login and the stock server.Configurations handler are not decided",
-		"bundles of 4096 or more packets (the bot's hard limit) and packet ids outside the clientbound id table are not generated",
+		"bundles of 4096 or more packets (the bot's hard limit) and negative packet ids are not generated",
 	}
 	if !jnLegS(env) {
 		return
